@@ -120,6 +120,23 @@ func c09BoundaryFormatTable() []c09FmtCase {
 			out = append(out, c09FmtCase{segs: lab, ctl: ctl, args: []int{3, 10}, table: true})
 		}
 	}
+	// cursor pairs: every way of moving the argument cursor followed by every kind of directive that
+	// takes an argument (each directive checks the cursor on its own: the neighbours of nextArg)
+	moves := []string{"~*", "~2*", "~9*", "~0*", "~-1*", "~-2*", "~:*", "~2:*", "~9:*", "~0:*", "~-1:*", "~@*", "~1@*", "~2@*", "~9@*", "~-1@*"}
+	takers := []string{"~a", "~s", "~d", "~b", "~o", "~x", "~r", "~:r", "~@r", "~:@r", "~10r", "~c", "~:c", "~@c", "~p", "~:p", "~@p", "~:@p", "~e", "~f", "~g", "~$", "~w",
+		"~[a~;b~]", "~:[a~;b~]", "~@[a~]", "~{~a~}", "~:{~a~}", "~@{~a~}", "~:@{~a~}", "~?", "~@?", "~va", "~vd", "~v%", "~#[a~;b~]", "~(~a~)", "~<~a~>", "~^", "~t", "~/print/"}
+	for _, m := range moves {
+		for _, t := range takers {
+			for _, pre := range []string{"", "~a"} {
+				lab := []string{fmt.Sprintf("cursor-pair move=%s%s then=%s", pre, m, t)}
+				ctl := pre + m + t
+				out = append(out, c09FmtCase{segs: lab, ctl: ctl, table: true},
+					c09FmtCase{segs: lab, ctl: ctl, args: []int{3}, table: true},
+					c09FmtCase{segs: lab, ctl: ctl, args: []int{3, 10}, table: true},
+					c09FmtCase{segs: lab, ctl: ctl, args: []int{10, 3}, table: true})
+			}
+		}
+	}
 	return out
 }
 
